@@ -59,7 +59,6 @@ fn pointed_dsets(dim: usize, n: usize) -> Vec<Tab> {
     let mut out = vec![];
     let mut op = vec![vec![0usize; n + 1]; dim + 1];
     rec(dim, n, 0, 1, &mut op, &mut out);
-    out.retain(|t| t.far_commute());
     out
 }
 
@@ -86,9 +85,12 @@ fn bfs_code(t: &Tab, start: usize) -> Vec<usize> {
 }
 
 /// (one table per isomorphism class of connected D-sets, order of its automorphism group)
-fn dsets_up_to_iso(dim: usize, n: usize) -> Vec<(Tab, usize)> {
+fn dsets_up_to_iso(dim: usize, n: usize, commuting: bool) -> Vec<(Tab, usize)> {
     let mut out = vec![];
     for t in pointed_dsets(dim, n) {
+        if commuting && !t.far_commute() {
+            continue;
+        }
         let own = bfs_code(&t, 1);
         let mut least = true;
         let mut aut = 0;
@@ -424,36 +426,33 @@ fn main() {
     }
 
     // (1) 2D: every connected D-set up to isomorphism, symmetry-breaking branching assignments
-    let nmax2 = if th { 8 } else { 5 };
+    let nmax2 = if th { 8 } else { 7 };
     for n in 1..=nmax2 {
-        let sets = dsets_up_to_iso(2, n);
+        let sets = dsets_up_to_iso(2, n, true);
         for (t, aut) in &sets {
             let tag = format!("dim=2 size={}", n);
+            let sym = *aut > 1;
             // the plain D-set
             let nt = if n >= 2 { "nt " } else { "" };
-            if n <= 7 || *aut > 1 {
-                ismin(&mut ctx, 0, t, &format!("{}{}", nt, tag));
-                auts(&mut ctx, 0, t, &format!("{}{}", if *aut > 1 { "nt " } else { "" }, tag));
-                morph(&mut ctx, 0, t, t, &format!("{}{}", nt, tag));
-                fold_cases(&mut ctx, 0, t, &mut rng, n <= 4, &format!("{}{}", nt, tag));
-            }
+            ismin(&mut ctx, 0, t, &format!("{}{}", nt, tag));
+            auts(&mut ctx, 0, t, &format!("{}{}", if sym { "nt " } else { "" }, tag));
+            morph(&mut ctx, 0, t, t, &format!("{}{}", nt, tag));
+            fold_cases(&mut ctx, 0, t, &mut rng, n <= 4, &format!("{}{}", nt, tag));
             // symbols
             let (vals, cap): (&[usize], usize) = if !th {
-                if n <= 3 { (&[1, 2, 3], 81) } else if *aut > 1 { (&[1, 2, 3], 27) } else { (&[1, 2, 3], 6) }
-            } else if n <= 4 {
-                (&[1, 2, 3], 243)
-            } else if n <= 6 {
-                if *aut > 1 { (&[1, 2, 3], 81) } else { (&[1, 2, 3], 12) }
-            } else if n == 7 {
-                if *aut > 1 { (&[3, 4, 6], 81) } else { (&[1, 2, 3], 2) }
-            } else if *aut > 1 {
-                (&[3, 4, 6], 32)
+                match n {
+                    1..=5 => (&[1, 2, 3], 729),
+                    6 => (&[1, 2, 3], if sym { 243 } else { 27 }),
+                    _ => (&[1, 2, 3], if sym { 81 } else { 3 }),
+                }
             } else {
-                (&[1, 2, 3], 0)
+                match n {
+                    1..=4 => (&[1, 2, 3, 4, 6], 3125),
+                    5 | 6 => (&[1, 2, 3], 2187),
+                    7 => if sym { (&[3, 4, 6], 729) } else { (&[1, 2, 3], 243) },
+                    _ => if sym { (&[3, 4, 6], 729) } else { (&[1, 2, 3], 27) },
+                }
             };
-            if cap == 0 {
-                continue;
-            }
             let syms = assignments(t, vals, cap, &mut rng);
             for (k, s) in syms.iter().enumerate() {
                 symbol_cases(&mut ctx, s, *aut, &mut rng, n <= 3, &tag);
@@ -463,32 +462,51 @@ fn main() {
                     morph(&mut ctx, 1, s, other, &format!("nt {}", tag));
                 }
             }
-            // covers of some of the symbols
-            let ncov = if th { if n <= 4 { 6 } else if n <= 6 { 2 } else { 0 } } else if n <= 4 { 2 } else { 0 };
-            for s in syms.iter().take(ncov) {
-                for c in covers_of(s, &[2, 3], if th { 60 } else { 30 }, if th { 2 } else { 1 }, &mut rng) {
-                    let ctag = format!("nt cover dim=2 size={} sheets={}", c.size.min(18), c.size / s.size);
-                    cover_case(&mut ctx, s, &c, &ctag);
-                    morph(&mut ctx, 1, &c, s, &ctag);
-                    morph(&mut ctx, 1, s, &c, &ctag);
-                    auts(&mut ctx, 1, &c, &ctag);
-                    minimg(&mut ctx, &c, &ctag);
+            // covers of some of the symbols, spread over the assignment list
+            let ncov = if th { if n <= 4 { 12 } else if n <= 6 { 4 } else { 1 } } else if n <= 4 { 3 } else if n <= 5 { 1 } else { 0 };
+            if ncov > 0 {
+                let step = std::cmp::max(1, syms.len() / ncov);
+                for s in syms.iter().step_by(step).take(ncov) {
+                    for c in covers_of(s, &[2, 3], if th { 60 } else { 30 }, if th { 2 } else { 1 }, &mut rng) {
+                        let ctag = format!("nt cover dim=2 size={} sheets={}", c.size.min(18), c.size / s.size);
+                        cover_case(&mut ctx, s, &c, &ctag);
+                        morph(&mut ctx, 1, &c, s, &ctag);
+                        morph(&mut ctx, 1, s, &c, &ctag);
+                        auts(&mut ctx, 1, &c, &ctag);
+                        minimg(&mut ctx, &c, &ctag);
+                    }
                 }
             }
         }
     }
 
+    // (1b) plain D-sets whose operations 0 and 2 do not commute (not D-symbols; the D-set layer
+    //      of morphism / automorphisms / fold / is_minimal does not need the axiom)
+    let nmaxnc = if th { 6 } else { 5 };
+    for n in 3..=nmaxnc {
+        for (t, aut) in &dsets_up_to_iso(2, n, false) {
+            if t.far_commute() {
+                continue;
+            }
+            let tag = format!("nt noncommuting dim=2 size={}", n);
+            ismin(&mut ctx, 0, t, &tag);
+            auts(&mut ctx, 0, t, &format!("{}noncommuting dim=2 size={}", if *aut > 1 { "nt " } else { "" }, n));
+            morph(&mut ctx, 0, t, t, &tag);
+            fold_cases(&mut ctx, 0, t, &mut rng, false, &tag);
+        }
+    }
+
     // (2) 3D
-    let nmax3 = if th { 4 } else { 3 };
+    let nmax3 = if th { 5 } else { 4 };
     for n in 1..=nmax3 {
-        for (t, aut) in &dsets_up_to_iso(3, n) {
+        for (t, aut) in &dsets_up_to_iso(3, n, true) {
             let tag = format!("dim=3 size={}", n);
             let nt = if n >= 2 { "nt " } else { "" };
             ismin(&mut ctx, 0, t, &format!("{}{}", nt, tag));
             auts(&mut ctx, 0, t, &format!("{}{}", if *aut > 1 { "nt " } else { "" }, tag));
             morph(&mut ctx, 0, t, t, &format!("{}{}", nt, tag));
             fold_cases(&mut ctx, 0, t, &mut rng, n <= 3, &format!("{}{}", nt, tag));
-            let cap = if th { if *aut > 1 { 64 } else { 8 } } else if *aut > 1 { 16 } else { 4 };
+            let cap = if th { if n <= 4 { 243 } else if *aut > 1 { 64 } else { 8 } } else if n <= 3 { 81 } else if *aut > 1 { 16 } else { 4 };
             let syms = assignments(t, &[1, 2, 3], cap, &mut rng);
             for (k, s) in syms.iter().enumerate() {
                 symbol_cases(&mut ctx, s, *aut, &mut rng, n <= 2, &tag);
